@@ -83,11 +83,23 @@ void common(std::false_type) {
     std::printf("\n");
 }
 template <typename A, typename B>
+void pair_labels(std::true_type) {
+    using namespace au;
+    std::printf(" prod=[%s] quot=[%s]", unit_label(A{} * B{}), unit_label(A{} / B{}));
+}
+template <typename A, typename B>
+void pair_labels(std::false_type) {
+    // Distinct unit types that are quantity-equivalent (hertz / becquerel) cannot be multiplied:
+    // Au has no strict total ordering for them and says so with a static_assert.  Not C20's
+    // business, so the probe does not form that product.
+    std::printf(" prod=[-] quot=[-]");
+}
+template <typename A, typename B>
 void pair(const char *a, const char *b) {
     using namespace au;
-    std::printf("pair %s %s prod=[%s] quot=[%s] samedim=%d", a, b, unit_label(A{} * B{}), unit_label(A{} / B{}),
-                int(has_same_dimension(A{}, B{})));
-    common<A, B>(std::integral_constant<bool, HasSameDimension<A, B>::value>{});
+    std::printf("pair %s %s samedim=%d", a, b, int(has_same_dimension(A{}, B{})));
+    pair_labels<A, B>(std::integral_constant<bool, !AreUnitsQuantityEquivalent<A, B>::value>{});
+    common<A, B>(std::integral_constant<bool, HasSameDimension<A, B>::value && !AreUnitsQuantityEquivalent<A, B>::value>{});
 }
 
 // Units of time additionally go through the chrono interop with their own exact period.
